@@ -6,6 +6,7 @@ representative.  So for this function the chain source → RFC 9380 consists of 
 import Voi.Props.FL.Ristretto
 import Voi.Model.H2C
 import Voi.Gen.FL_ElligatorF64_montgomeryFlavor
+import Voi.Gen.FL_ElligatorF64_EdwardsFlavor
 namespace Voi.Props.FL
 open Voi Voi.Spec Voi.FIR Voi.Model.H2C
 open Voi.Props.C07 hiding toZ
@@ -61,5 +62,43 @@ theorem montgomeryFlavor_eq (r : Nat) :
     cases ng
     · simp only [Bool.false_eq_true, if_false, FIR.bxor, x10, if_true, Nat.one_ne_zero]
     · simp only [if_true, FIR.bxor, x11, Nat.zero_ne_one, if_false]
+
+end Voi.Props.FL
+
+/-! ### `EdwardsFlavor`: Elligator 2 onto edwards25519, including the decompression inside `SetEdwardsFromXY` and its `panic` -/
+namespace Voi.Props.FL
+open Voi Voi.Spec Voi.FIR Voi.Model.H2C Voi.Gen.CurveF64
+
+/-- decompression with the `panic` of `SetEdwardsFromXY` as the leaf `some []` (same shape as the regenerated code) -/
+def decompressOrPanic (n : Nat) : Option (List Nat) :=
+  let y := fromBytes n
+  let yy := Fp.sq y
+  let u := Fp.sub yy 1
+  let v := Fp.add (Fp.mul yy 37095705934669439343138083508754565189542113879843219016388785533085940283555) 1
+  let x := sqrtV u v
+  let ok := sqrtOk u v
+  if FIR.cond ok true then some []
+  else
+    let s := topBit n
+    let x' := FIR.sel s x (Fp.neg x)
+    some [x', y, 1, Fp.mul x' y]
+
+/-- the part of `EdwardsFlavor` after `montgomeryFlavor`: birational map, exceptional cases, then `SetEdwardsFromXY`
+(encode y, put the sign of x into bit 255, decompress) -/
+def edwardsTail (u v : Nat) : Option (List Nat) :=
+  let x := Fp.mul (Fp.mul (Fp.inv v) u) 6853475219497561581579357271197624642482790079785650197046958215289687604742
+  let uPlusOne := Fp.add u 1
+  let y := Fp.mul (Fp.sub u 1) (Fp.inv uPlusOne)
+  let undef := FIR.bor (fisZero uPlusOne) (fisZero v)
+  let x' := FIR.sel undef x 0
+  let y' := FIR.sel undef y 1
+  decompressOrPanic (xorTop (toBytes y') (fisNeg x'))
+
+/-- the regenerated `EdwardsFlavor` is `montgomeryFlavor` followed by that tail (by `rfl`) -/
+theorem EdwardsFlavor_decomp (r : Nat) :
+    Voi.Gen.ElligatorF64.EdwardsFlavor_tsh r =
+      edwardsTail ((Voi.Gen.ElligatorF64.montgomeryFlavor_sh r).getD 0 0) ((Voi.Gen.ElligatorF64.montgomeryFlavor_sh r).getD 1 0) := by
+  unfold Voi.Gen.ElligatorF64.EdwardsFlavor_tsh edwardsTail decompressOrPanic Voi.Gen.ElligatorF64.montgomeryFlavor_sh
+  simp only [List.getD_cons_zero, List.getD_cons_succ]
 
 end Voi.Props.FL
